@@ -5,7 +5,7 @@ Domain : generated contact-rich scenes (piles or margin-clusters of 3-10 (thorou
          Jacobian modes, islands on/off, noslip, multiccd) + 3 fixed scenes (dual-solver sparse/dense, 14-sphere cluster) x
          memory sizes from 0 up to the need: the need of the run is bisected around mjData.maxuse_arena of the unbounded
          run (smallest arena whose run is warning-free and identical to the unbounded run), then sizes are swept (quick:
-         ~150 evenly spaced + every 32 bytes below 4 KB + need-1/need/need+64; thorough: every 64 bytes, every 8 below
+         ~150 evenly spaced + every 32 bytes below 4 KB + need-1/need/need+64; thorough: every 64 bytes (at most 1500 sizes per scene), every 8 below
          8 KB).  The arena size is applied as mjModel.narena on the model compiled with ample memory.
 Oracle : per (scene, size) in a supervised ASan worker (and the release build for half of the scenes): mj_makeData/mj_step
          complete or raise a catchable mju_error - never a sanitizer report / process death; when a step completes: counts
@@ -87,7 +87,7 @@ def main(ck):
                     '<size memory> compiles to); sizes too small for the compiler itself are thereby also covered',
                     'a release-build worker death carries no report: it is attributed to the known pushPairArena finding only if '
                     'the ASan sweep of the same scene died in pushPairArena as well']
-  nmodels = ck.budget(6, 200)
+  nmodels = ck.budget(6, 20)
   scenes = []
 
   def collect(case):
